@@ -8,6 +8,7 @@
 use super::structs::*;
 use crate::common::*;
 use std::collections::BTreeSet;
+use std::sync::Mutex;
 
 pub struct C09;
 
@@ -35,12 +36,34 @@ fn skeleton(items: &[Item]) -> Vec<String> {
         .collect()
 }
 
+/// Skeleton of the baseline-options output. The cases of one world follow each other and mostly share one baseline
+/// (same shader, representation, validation), so the last result is kept instead of running the library again.
+fn baseline_skeleton(wgsl: &str, base: &Params) -> Option<Vec<String>> {
+    static LAST: Mutex<Option<(String, String, Option<Vec<String>>)>> = Mutex::new(None);
+    let key = base.describe();
+    if let Ok(g) = LAST.lock() {
+        if let Some((w, k, v)) = g.as_ref() {
+            if w == wgsl && *k == key {
+                return v.clone();
+            }
+        }
+    }
+    let v = match run_lib(wgsl, base) {
+        LibResult::Ok(bt) => outline(&bt).ok().map(|bitems| skeleton(&bitems)),
+        _ => None,
+    };
+    if let Ok(mut g) = LAST.lock() {
+        *g = Some((wgsl.to_string(), key, v.clone()));
+    }
+    v
+}
+
 impl Property for C09 {
     fn id(&self) -> &'static str {
         "C09"
     }
     fn rule(&self) -> &'static str {
-        "Seeded struct worlds (see C08; roles vertex-only, host-only, both, fragment-input, compute-input, runtime-array-terminated) x all 2^4 derive switches x 3 representations (combinations the library documents as unsupported for runtime arrays are skipped); oracle = the statement's table per struct: always Debug, Clone, PartialEq; Copy and #[repr(C)] unless it ends in a runtime array; bytemuck::Pod+Zeroable iff (host-shareable and the host switch) or (not host-shareable and the vertex switch); encase::ShaderType iff host-shareable and its switch; serde Serialize+Deserialize iff its switch; layout assertions iff host-shareable and the bytemuck host switch; no duplicates; and with derives/assertions removed the output equals the baseline-options output item by item."
+        "Seeded struct worlds (see C08; roles vertex-only, host-only, both - also a vertex input nested first / in the middle / last in a uniform or storage struct next to repeated and previously seen member types -, fragment-input, compute-input, runtime-array-terminated) x all 2^4 derive switches x 3 representations (combinations the library documents as unsupported for runtime arrays are skipped); oracle = the statement's table per struct: always Debug, Clone, PartialEq; Copy and #[repr(C)] unless it ends in a runtime array; bytemuck::Pod+Zeroable iff (host-shareable and the host switch) or (not host-shareable and the vertex switch); encase::ShaderType iff host-shareable and its switch; serde Serialize+Deserialize iff its switch; layout assertions iff host-shareable and the bytemuck host switch; no duplicates; and with derives/assertions removed the output equals the baseline-options output item by item."
     }
 
     fn cases(&self, seed: u64, tier: Tier) -> Vec<Case> {
@@ -127,13 +150,11 @@ impl Property for C09 {
         if items.iter().any(|i| i.kind == Kind::Struct && i.fields.iter().any(|f| f.2.iter().any(|a| a == "#[size(runtime)]"))) {
             base.opts.derive_encase_host_shareable = true;
         }
-        if let LibResult::Ok(bt) = run_lib(&case.wgsl, &base) {
-            if let Ok(bitems) = outline(&bt) {
-                let (a, b) = (skeleton(&items), skeleton(&bitems));
-                if a != b {
-                    let i = a.iter().zip(b.iter()).position(|(x, y)| x != y).unwrap_or(a.len().min(b.len()));
-                    o.fail(case, "parts of the output the derive switches do not document (compared with baseline options)", clip(b.get(i).map(|s| s.as_str()).unwrap_or("<end>")), clip(a.get(i).map(|s| s.as_str()).unwrap_or("<end>")));
-                }
+        if let Some(b) = baseline_skeleton(&case.wgsl, &base) {
+            let a = skeleton(&items);
+            if a != b {
+                let i = a.iter().zip(b.iter()).position(|(x, y)| x != y).unwrap_or(a.len().min(b.len()));
+                o.fail(case, "parts of the output the derive switches do not document (compared with baseline options)", clip(b.get(i).map(|s| s.as_str()).unwrap_or("<end>")), clip(a.get(i).map(|s| s.as_str()).unwrap_or("<end>")));
             }
         }
         o
